@@ -141,7 +141,15 @@ func idNum(s string) uint64 {
 	return v
 }
 
-func (sh *shadow) afterPanic(r *hx.Run, w *world, op []string) {}
+// afterPanic: a handler panicked. Block execution has no recover: on a node this transaction, once in a block, stops
+// every node that executes the block. For an approval transaction that is a defect of the approval state machine
+// whatever the request state (C33: a late or repeated approval round must simply have no effect).
+func (sh *shadow) afterPanic(r *hx.Run, w *world, op []string) {
+	if spec, ok := approveOps[op[0]]; ok {
+		r.Viol("C33:approval-panics:"+spec.reqKind, fmt.Sprintf("%s panicked (%s): an approval for a request that is not pending (already applied, or never made) reached the quorum and dereferenced the missing request record; block execution does not recover panics",
+			spec.method, r.PanicMsg))
+	}
+}
 
 func (sh *shadow) after(r *hx.Run, w *world, op []string, pre, post *snapshot, cr callResult) {
 	name := op[0]
